@@ -4,7 +4,7 @@ from dataclasses import dataclass, field, replace
 
 O_C01, O_C02, O_C03, O_C04, O_C05, O_C19 = 1, 2, 4, 8, 16, 32
 S1 = [("std::hash::RandomState::new", "env::random_state_stub")]
-S2 = [("ring::digest::digest", "env::digest_stub::digest")]
+S2 = [("ring::digest::digest", "env::digest_stub::digest"), ("<ring::digest::Digest as core::convert::AsRef<[u8]>>::as_ref", "env::digest_stub::as_ref_stub")]
 
 SAN_NAMES = ["rfc822", "dns", "uri", "ipv4", "ipv6", "other"]
 EKU_NAMES = ["any", "server", "client", "code", "email", "time", "ocsp", "Other"]
@@ -38,6 +38,7 @@ class CertShape:
     custom_crit: int = 0
     serial: int = 2
     serial_b0: int = 0x01
+    serial_b1: int = 0x01
     kid: int = 0
     kid_len: int = 2
     ikid: int = 0
@@ -61,7 +62,7 @@ class CertShape:
         return ("cert::CertShape { "
                 f"issuance: {self.issuance}, aki: {b(self.aki)}, san: {arr(self.san)}, ku: {self.ku}, eku: {arr(self.eku)}, nc: {self.nc}, "
                 f"nc_perm: {arr(self.nc_perm)}, nc_excl: {arr(self.nc_excl)}, crl_dps: {arr(self.crl_dps)}, is_ca: {self.is_ca}, path_len: {self.path_len}, "
-                f"custom: {self.custom}, custom_crit: {self.custom_crit}, serial: {self.serial}, serial_b0: {self.serial_b0}, kid: {self.kid}, kid_len: {self.kid_len}, "
+                f"custom: {self.custom}, custom_crit: {self.custom_crit}, serial: {self.serial}, serial_b0: {self.serial_b0}, serial_b1: {self.serial_b1}, kid: {self.kid}, kid_len: {self.kid_len}, "
                 f"ikid: {self.ikid}, ikid_len: {self.ikid_len}, strlen: {self.strlen}, alg: {self.alg}, ialg: {self.ialg}, "
                 f"sign_fails: {b(self.sign_fails)}, oracles: {oracles} }}")
 
@@ -76,7 +77,7 @@ class CertShape:
         if self.crl_dps: parts.append("dp" + "".join(str(x) for x in self.crl_dps))
         if self.is_ca: parts.append(f"ca{self.is_ca}" + (f"p{self.path_len}" if self.is_ca == 3 else ""))
         if self.custom: parts.append(f"cx{self.custom}c{self.custom_crit}")
-        parts.append(f"s{'A' if self.serial < 0 else self.serial}b{self.serial_b0:02x}")
+        parts.append(f"s{'A' if self.serial < 0 else self.serial}b{self.serial_b0:02x}" + (f"{self.serial_b1:02x}" if self.serial < 0 else ""))
         parts.append(f"k{self.kid}l{self.kid_len}")
         if self.issuance: parts.append(f"ik{self.ikid}l{self.ikid_len}")
         if self.strlen != 2: parts.append(f"sl{self.strlen}")
@@ -95,7 +96,7 @@ class CertShape:
         if self.crl_dps: d.append("CRLDP uris per point " + str(list(self.crl_dps)))
         d.append(ISCA_NAMES[self.is_ca] + (f" n={self.path_len}" if self.is_ca == 3 else ""))
         if self.custom: d.append(f"{self.custom} custom ext (critical mask {self.custom_crit:#b})")
-        d.append("serial automatic" if self.serial < 0 else f"serial {self.serial} bytes first={self.serial_b0:#04x}")
+        d.append(f"serial automatic (digest bytes 0,1 = {self.serial_b0:#04x},{self.serial_b1:#04x}; rest symbolic)" if self.serial < 0 else f"serial {self.serial} bytes first={self.serial_b0:#04x}")
         d.append(f"key id {KID_NAMES[self.kid]}" + (f"({self.kid_len}B)" if self.kid == 0 else ""))
         if self.issuance: d.append(f"issuer key id {KID_NAMES[self.ikid]}" + (f"({self.ikid_len}B)" if self.ikid == 0 else ""))
         d.append(f"strings {self.strlen}B; subject alg {ALG_NAMES[self.alg]}, issuer alg {ALG_NAMES[self.ialg]}")
